@@ -251,14 +251,14 @@ func zzC09FmtScan(ctl []byte, kinds []int, argInt []int64) (missing bool, vargs 
 				continue
 			}
 			if b == '\'' {
-				// a character parameter: the bytes up to the next directive
-				// byte; only a single byte is inside the simple model
-				cnt := 0
-				for i < len(ctl) && zzC09FmtDirByte[ctl[i]] == 0 {
-					i++
-					cnt++
+				// a character parameter: the byte after the quote, whatever it
+				// is, plus the bytes up to the next directive byte (a
+				// character name); only a single byte is inside the simple model
+				if len(ctl) <= i {
+					return
 				}
-				if cnt != 1 {
+				i++
+				if i < len(ctl) && zzC09FmtDirByte[ctl[i]] == 0 {
 					return
 				}
 				pv = append(pv, 0)
@@ -629,8 +629,8 @@ walk:
 			if b == ':' || b == ',' || b == '#' || b == '-' || ('0' <= b && b <= '9') {
 				continue
 			}
-			if b == '\'' && i < len(ctl) && zzC09FmtDirByte[ctl[i]] == 0 {
-				i++ // a character parameter of one byte
+			if b == '\'' && i < len(ctl) {
+				i++ // a character parameter: the byte after the quote
 				continue
 			}
 			if b == 'r' {
@@ -958,6 +958,13 @@ func VerifC09Index(row, kind, n int) {
 			env[name] = slip.Fixnum(x)
 		}
 	}
+	if row == 75 {
+		// (ash A B): a left shift by more than 8 and at most 2^37 bits is a
+		// legitimate bignum result (the engine's math/big model does not shift
+		// by symbolic amounts); above 2^37 bits the result has more than 2^31
+		// words
+		vrt.Assume(ints[1] <= zzC09Small || 1<<37 < ints[1])
+	}
 	form := zzC09Subst(tmpl, env)
 	zzC09IdxCarves(row, kind, n, ints)
 	zzC09Guarded(scope, form, zzC09Decisions)
@@ -977,10 +984,7 @@ func zzC09IdxCarves(row, kind, n int, ints []int64) {
 	// :start/:end (subseq: start end) both inside the sequence, start > end
 	startGtEnd := false
 	switch row {
-	case 1: // (position find position-if find-if were repaired by 2b926e5)
-		startGtEnd = kind != 3 && 0 <= b && b < a && a <= ln
-	case 140: // the same on the two-character string "éa"
-		startGtEnd = 0 <= b && b < a && a <= 2
+	// (position find position-if find-if were repaired by 2b926e5, subseq by 7362abc)
 	case 17: // search: bounds of the first sequence (length 2)
 		startGtEnd = 0 <= b && b <= 2 && b < a
 	case 18: // search: bounds of the second sequence
@@ -996,10 +1000,8 @@ func zzC09IdxCarves(row, kind, n int, ints []int64) {
 	// a negative size, count or byte-specifier field
 	negative := false
 	switch row {
-	case 46, 77, 127:
+	case 46, 77: // (last with a negative count was repaired by 13728c4)
 		negative = a < 0
-	case 6:
-		negative = a < 0 && 1 <= n
 	case 89:
 		negative = a < 0 && (kind == 1 || kind == 3)
 	case 80, 82, 113: // dpb mask-field deposit-field with a negative byte size never return
@@ -1009,10 +1011,6 @@ func zzC09IdxCarves(row, kind, n int, ints []int64) {
 	case 76, 83, 108: // dpb deposit-field mask-field with a byte position <= -8: SetBit index
 		negative = a <= -8
 	}
-	// (ash x most-negative-fixnum): the negated count is negative again
-	if row == 75 {
-		negative = b == -9223372036854775808
-	}
 	vrt.Carve("C09-negative-size", negative)
 	// a size above 2^31 is allocated (or looped over) without a limit
 	huge := false
@@ -1021,6 +1019,8 @@ func zzC09IdxCarves(row, kind, n int, ints []int64) {
 		huge = zzC09Huge < a
 	case 89:
 		huge = zzC09Huge < a && kind == 3
+	case 75: // (ash x count): a bignum of count bits
+		huge = a != 0 && 1<<37 < b
 	}
 	vrt.Carve("C09-size-unbounded", huge)
 	// invalid bounds, or nothing to read between them (end of file: the default
